@@ -47,7 +47,7 @@ Proof. vm_compute. discriminate. Qed.
 Definition w1 : went := {| w_e := 1; w_v := 10; w_t := -1; w_del := false |}.
 Definition w2 : went := {| w_e := 2; w_v := 11; w_t := -1; w_del := false |}.
 Definition fs_hist : list hop :=
-  [HDm (DCreate 1 []); HDm (DPost 1 false 0 false [w1; w2]); HDm (DPost 1 true 1 false [w1])].
+  [HDm (DCreate 1 plain_cfg); HDm (DPost 1 false 0 false [w1; w2]); HDm (DPost 1 true 1 false [w1])].
 
 (** F14d: a full sync in progress is forgotten ... *)
 Lemma refuted_fullsync_lost : visible only_fs fs_hist [].
